@@ -189,7 +189,45 @@ func cp(b []byte) []byte {
 	return append([]byte{}, b...)
 }
 
+// NearMiss derives a version string that is not v but looks like it: another letter case, surrounding blanks, one
+// character less, more or different. A backend that normalises or truncates versions before comparing them confuses
+// these with v.
+func NearMiss(v string, variant int) string {
+	if v == "" {
+		return garbageVer
+	}
+	var r string
+	switch variant % 7 {
+	case 0:
+		r = strings.ToLower(v)
+	case 1:
+		r = v + " "
+	case 2:
+		r = v[:len(v)-1]
+	case 3:
+		r = " " + v
+	case 4:
+		last := v[len(v)-1]
+		c := byte('0')
+		if last == c {
+			c = '1'
+		}
+		r = v[:len(v)-1] + string(c)
+	case 5:
+		r = v + "\x00"
+	default:
+		r = strings.ToUpper(v[:1]) + strings.ToLower(v[1:])
+	}
+	if r == v {
+		r = v + "x"
+	}
+	return r
+}
+
 func (d *Driver) verArg(key string, choice int) string {
+	if choice >= 4 {
+		return NearMiss(d.cur[key], choice-4)
+	}
 	switch choice {
 	case 0:
 		if v := d.cur[key]; v != "" {
